@@ -557,9 +557,14 @@ def analyse(events, bm_log, ts_f, ts_dtype, y0, dt, adaptive, dt_min=0.0, rtol=N
                 d["normOK"] = True
             else:
                 rec_norm = plain_error_norm(full[5], half2[5], rtol, atol)
+                # the smallest tolerance entry: below 1e-6 the library's small-value guard (a floor of 1e-7 on the
+                # mixed tolerance) may be active - unconstrained, like the floor region of the estimate itself
+                a_, b_ = full[5].detach().double().abs(), half2[5].detach().double().abs()
+                min_tol = float((rtol * torch.maximum(a_, b_) + atol).min())
                 tol = norm_rtol if norm_rtol is not None else (1e-12 if full[5].dtype == torch.float64 else 64 * eps_of(full[5].dtype))
                 d["normOK"] = bool(abs(rec_norm - est) <= tol * max(abs(est), abs(rec_norm))
-                                   or (est < 1e-6 and rec_norm < 1e-6))       # floor region: unconstrained
+                                   or (est < 1e-6 and rec_norm < 1e-6)        # floor region: unconstrained
+                                   or min_tol < 1e-6)
                 d["_norm"] = (est, rec_norm)
             d["raw"] = float(upd[4]) if upd else float("nan")
             d["_prev_ratio_none"] = (upd[3] is None) if upd else None
@@ -1257,6 +1262,13 @@ def natural_problems(seed, quick):
         rt, at = tols[(k + seed) % 3] if dtp == "float64" else (1e-2, 1e-2)
         add(f"example-{lab}-{nz}-{dtp}", lab, nz, dtp, ("example",), [0.0, 0.3, 0.55, 1.0], 0.25, rt, at,
             2.0 ** -7 if dtp == "float64" else 2.0 ** -5)
+    # one-sided tolerances: purely relative (atol = 0) on small states, purely absolute (rtol = 0)
+    add("relonly-diag-euler", "euler", "diagonal", "float64", ("linear_small", 2.0, 0.5, 0.0), [0.0, 0.3, 1.0], 0.25,
+        1e-3, 0.0, 2.0 ** -10)
+    add("relonly-diag-milstein", "milstein_ito", "diagonal", "float64", ("linear_small", 4.0, 0.75, 0.0), [0.0, 0.45, 1.0],
+        0.2, 1e-3, 0.0, 2.0 ** -10)
+    add("absonly-diag-heun", "heun", "diagonal", "float64", ("linear", 2.0, 0.5, 0.0), [0.0, 0.3, 1.0], 0.25,
+        0.0, 1e-3, 2.0 ** -10)
     # a solver with extra state (f, g, z) and many rejections: a rejected trial must not advance the extra state
     add("osc-revheun-0.001", "reversible_heun", "diagonal", "float64", ("linear", 0.25, 0.125, 24.0), [0.0, 0.4, 1.0], 0.3,
         1e-3, 1e-3, 1e-3, d=2)
@@ -1302,15 +1314,17 @@ def c14_natural(job):
     method, sde_type, _, levy, options, has = FIXED_METHODS[pr["label"]]
     c = dict(label=pr["label"], method=method, sde_type=sde_type, noise=pr["noise"], levy=levy, options=options, has=has,
              dtype=pr["dtype"], ts_kind="tensor")
-    if pr["sde"][0] == "linear":
+    if pr["sde"][0] in ("linear", "linear_small"):
         _, lam, sig, omega = pr["sde"]
         sde = LinearSDE(lam, sig, noise_type=pr["noise"], sde_type=sde_type, omega=omega)
     else:
         sde = ExampleSDE(pr["noise"], sde_type, d=pr["d"])
     p = Problem(c, seed, batch=pr["batch"], d=pr["d"], sde=sde)
-    if pr["sde"][0] == "linear":
+    if pr["sde"][0] in ("linear", "linear_small"):
         p.m = {"diagonal": pr["d"], "additive": 1, "scalar": 1, "general": 2}[pr["noise"]]
         p.y0 = p.y0 + 1.5                      # away from the fixed point 0
+        if pr["sde"][0] == "linear_small":
+            p.y0 = p.y0 / 64.0                 # small states: with atol = 0 the tolerance is rtol |y| ~ 1e-5
     ts_f = pr["ts"]
     span = ts_f[-1] - ts_f[0]
     limit = watchdog_limit(span, pr["dt_min"])
